@@ -79,6 +79,60 @@ pub fn check_trace(em: &mut Emitter, what: &str, src: &str, p: &vm_core::Program
     }
 }
 
+/// Programs whose range-checker table has to bridge gaps of special sizes: the table bridges the gap
+/// between two looked-up 16-bit values with rows whose deltas are powers of three (at most 3^7), so
+/// the interesting gaps are the powers of three themselves, their neighbours, and exact multiples of
+/// the largest stride (incl. 3^8, 3^9, 3^10), below the first value, between two values, and up to
+/// 65535. `u32split` of V < 2^16 looks up exactly {V, 0, 0, 0}.
+pub fn range_gap_programs(seed: u64, count: usize) -> Vec<(String, Option<String>, String, Vec<u64>)> {
+    let mut gaps: Vec<u64> = Vec::new();
+    let mut p3 = 1u64;
+    for _ in 0..=10 {
+        gaps.extend([p3.saturating_sub(1), p3, p3 + 1]);
+        p3 *= 3;
+    }
+    for k in 1..=29u64 {
+        gaps.push(k * 2187);
+    }
+    for k in [2u64, 4, 5, 7, 8] {
+        gaps.extend([k * 729, k * 2187 + 1, k * 2187 - 1, k * 2187 + 729]);
+    }
+    gaps.retain(|g| *g >= 1 && *g <= 65535);
+    gaps.sort();
+    gaps.dedup();
+    let mut rng = Rng::new(seed ^ 0x3A9E);
+    // seed-dependent order, so that short runs rotate over the whole list; the multiples of the
+    // largest stride (where a bridging loop ends exactly on a stride boundary) come first
+    for i in (1..gaps.len()).rev() {
+        let j = rng.below(i as u64 + 1) as usize;
+        gaps.swap(i, j);
+    }
+    gaps.sort_by_key(|g| if g % 2187 == 0 { 0 } else { 1 });
+    let mut out = Vec::new();
+    let lookup = |v: u64| format!("push.{} u32split drop drop", v);
+    // every gap once below the first value and once up to 65535, rotating over runs; two-value gaps
+    for (i, g) in gaps.iter().copied().enumerate() {
+        if out.len() >= count {
+            break;
+        }
+        if (i as u64 + seed) % 3 == 0 {
+            out.push((format!("range gap {} from 0", g), None, format!("begin {} end", lookup(g)), vec![]));
+        } else if (i as u64 + seed) % 3 == 1 {
+            out.push((format!("range gap {} up to 65535", g), None, format!("begin {} end", lookup(65535 - g)), vec![]));
+        } else {
+            let room = 65535 - g;
+            let a = 1 + rng.below(room.max(2) - 1);
+            out.push((
+                format!("range gap {} between {} and {}", g, a, a + g),
+                None,
+                format!("begin {} {} end", lookup(a), lookup((a + g).min(65535))),
+                vec![],
+            ));
+        }
+    }
+    out
+}
+
 /// (main rows, range rows, chiplet rows without padding) of an execution, None if it fails.
 pub fn shape(p: &vm_core::Program, st: &[u64]) -> Option<(usize, usize, usize)> {
     let (trace, _) = execute_trace(p, st, &[]).ok()?;
@@ -183,7 +237,8 @@ pub fn generate(em: &mut Emitter, seed: u64, thorough: bool) {
         }
     }
     // (4) power-of-two boundary shapes of every trace component
-    let bp = boundary_programs(if thorough { 12 } else { 6 });
+    let mut bp = boundary_programs(if thorough { 12 } else { 6 });
+    bp.extend(range_gap_programs(seed, if thorough { 400 } else { 90 }));
     em.stat("boundary_shape_programs", bp.len());
     for (what, k, src, st) in bp.iter() {
         if let Ok(p) = assemble(k.as_deref(), src, false) {
